@@ -26,7 +26,7 @@ ASSUMPTIONS = ["equality with the fresh network: 1e-9 relative (l2) for direct s
 FLOORS = {"quick": {"cases_held": 350, "history_ops": 4000, "mon_unseeded_sensitivity": 300, "mon_reset": 5000},
           "thorough": {"cases_held": 4000, "history_ops": 50000, "mon_unseeded_sensitivity": 4000, "mon_reset": 60000}}
 KINDS = ["compliance", "compliance3d", "cg-ilu", "cg-mg", "dynamic", "eig-sparse", "eig-dense", "soe", "sc-linsolve", "general-const",
-         "general-nonsym", "aggregation", "filterconv-overhang", "block-loads"]
+         "general-nonsym", "aggregation", "filterconv-overhang", "block-loads", "dense-definiteness"]
 TIMEOUT_CASE = 300
 
 
@@ -176,6 +176,25 @@ def build(kind, par):
             A = (Q * np.arange(1, n + 1) * rng.uniform(0.8, 1.2, n)) @ Q.T
             return [(A + A.T) / 2]
         return net, [sA], [sl, sV], 1e-7, genA
+    if kind == "dense-definiteness":
+        # dense symmetric system with positive diagonal whose definiteness changes along the history (e.g. K - w^2 M swept
+        # through a resonance): the Cholesky solver chosen at the first call has to fall back to LDL and come back
+        n = par["n"]
+        sA, sb = S("A", par["A0"]), S("b", np.ones(n))
+        su = net.append(pym.LinSolve([sA, sb]))
+        sc = net.append(pym.EinSum([su, sb], expression="i,i->"))
+
+        def genD(rng):
+            Q = np.linalg.qr(rng.standard_normal((n, n)))[0]
+            lam = rng.uniform(1.0, 4.0, n)
+            A = (Q * lam) @ Q.T
+            if rng.random() < 0.5:      # make it indefinite but keep the diagonal positive
+                w_, v_ = np.linalg.eigh(A)
+                A2 = A - (w_[0] + rng.uniform(0.2, 0.6)) * np.outer(v_[:, 0], v_[:, 0])
+                if np.all(np.diag(A2) > 0.05):
+                    A = A2
+            return [(A + A.T) / 2, rng.standard_normal(n)]
+        return net, [sA, sb], [sc, su], 1e-8, genD
     if kind == "aggregation":
         sx = S("x", np.linspace(0.5, 2, par["n"]))
         sy = net.append(pym.MathGeneral(sx, expression="inp0^2 + 0.1"))
@@ -197,6 +216,11 @@ def params(kind, rng):
     if kind == "general-nonsym":
         em = rng.standard_normal((8, 8)) * 0.5
         p["em"] = em + 8 * np.eye(8)
+    if kind == "dense-definiteness":
+        n = p["n"]
+        Q = np.linalg.qr(rng.standard_normal((n, n)))[0]
+        A = (Q * rng.uniform(1.0, 4.0, n)) @ Q.T
+        p["A0"] = (A + A.T) / 2
     if kind == "eig-dense":
         n = p["n"]
         Q = np.linalg.qr(rng.standard_normal((n, n)))[0]
